@@ -166,14 +166,21 @@ def run(rep, prog, tier):
     sing = single_assignments(po)
     oki = all(ast.unparse(sing.get(k_)) == v for k_, v in (('from_slice', '[slice(None) for ii in range(self.Npop)]'), ('to_slice', '[slice(None) for ii in range(self.Npop)]'),
                                                        ('proj_slice', '[nuax for ii in range(self.Npop)]')) if sing.get(k_) is not None) and all(k_ in sing for k_ in ('from_slice', 'to_slice', 'proj_slice'))
-    rep.ob('R-IDX', '_project_one_axis slices init', oki, 'other axes: full slices for data, broadcast (newaxis) for the weights', sm.rel, po.lineno, what='only the projected axis is restricted')
+    rep.ob('R-IDX', '_project_one_axis slices init', oki, 'other axes: full slices for data, broadcast (newaxis) for the weights' +
+           ('' if all(k_ in sing for k_ in ('from_slice', 'to_slice', 'proj_slice')) else ': the three index lists were not found'), sm.rel, po.lineno, what='only the projected axis is restricted')
     pfs = sing.get('pfs')
     okz = pfs is not None and 'numpy.zeros(newshape)' in ast.unparse(pfs) and 'mask_corners=False' in ast.unparse(pfs)
     ns_ = [x for x in po.body if isinstance(x, ast.Assign) and ast.unparse(x.targets[0]) == 'newshape[axis]']
     okz = okz and bool(ns_) and ast.unparse(ns_[0].value) == 'n + 1'
     rep.ob('R-TPL', '_project_one_axis result', okz, 'result starts as zeros with extent n+1 on the projected axis and an empty mask', sm.rel, po.lineno, what='fresh, unmasked accumulator')
     g = [n for n in po.body if isinstance(n, ast.If) and any(isinstance(x, ast.Raise) for x in n.body)]
-    rep.ob('R-DOM', '_project_one_axis upward', bool(g) and ast.unparse(g[0].test) == 'n > self.sample_sizes[axis]' and po.body.index(g[0]) < po.body.index(lp), 'raises when n exceeds the current size',
+    def up_test(t):
+        # n > <current size of the axis>, the size possibly through a single-assignment local; either operand order
+        if not (isinstance(t, ast.Compare) and len(t.ops) == 1 and isinstance(t.ops[0], (ast.Gt, ast.Lt))):
+            return False
+        a, b = (t.left, t.comparators[0]) if isinstance(t.ops[0], ast.Gt) else (t.comparators[0], t.left)
+        return ast.unparse(a) == 'n' and ast.unparse(inline(b, sing)) == 'self.sample_sizes[axis]'
+    rep.ob('R-DOM', '_project_one_axis upward', bool(g) and up_test(g[0].test) and po.body.index(g[0]) < po.body.index(lp), 'raises when n exceeds the current size',
            sm.rel, g[0].lineno if g else po.lineno, what='upward projection refused before any work')
     # ---- (5) project(): fold typestate ---------------------------------------------------------------------------------
     pr = prog.func(SM, 'Spectrum.project')
